@@ -120,8 +120,8 @@ PROPS = {
         explanation='classification half of C18: every is_* predicate of nom/src/xmlchar.rs equals the production range table for every char; Verus (SMT, all chars) and Kani (loop-free, kani::any::<char>(), complete) as two independent back ends',
     ),
     'C09': dict(
-        standin_ops=['xpath.func.floor', 'xpath.func.ceiling', 'xpath.func.round', 'xpath.func.boolean', 'xpath.func.not', 'xpath.func.number', 'xpath.func.substring', 'xpath.func.string_length', 'xpath.func.translate', 'xpath.cmp.equal_value', 'xpath.cmp.not_equal_value', 'xpath.cmp.less_than_value', 'xpath.cmp.less_eq_value', 'xpath.cmp.greater_than_value', 'xpath.cmp.greater_eq_value', 'xpath.op.neg'],
-        verus_units=['func_strings'],
+        standin_ops=['xpath.func.floor', 'xpath.func.ceiling', 'xpath.func.round', 'xpath.func.boolean', 'xpath.func.not', 'xpath.func.number', 'xpath.func.substring', 'xpath.func.string_length', 'xpath.func.translate', 'xpath.cmp.equal_value', 'xpath.cmp.not_equal_value', 'xpath.cmp.less_than_value', 'xpath.cmp.less_eq_value', 'xpath.cmp.greater_than_value', 'xpath.cmp.greater_eq_value', 'xpath.op.neg', 'xpath.query.numbers'],
+        verus_units=['func_strings', 'c09_number'],
         kani=['c09'],
         level='proof',
         trusted_base=TRUSTED_KANI + TRUSTED_VERUS,
